@@ -60,6 +60,13 @@ func (c01) Run(t *tape.Tape, tier Tier) *Result {
 	sim.At(0)
 	e0 := gen.Build(spec)
 	want := obs.Tree(e0, false)
+	// the origin, and relays, log / report / inspect the error before they
+	// send it: none of that may change what travels
+	sim.ExerciseDen = 3
+	if t.Bool(1, 3) {
+		obs.Exercise(e0)
+		sim.Stats.Faults["observed-before-forwarding"]++
+	}
 	m1, p := obs.Encode(e0)
 	res.Desc.Tree = spec.Expr()
 	res.Desc.Cluster = clusterDesc(sim)
